@@ -446,7 +446,8 @@ func (d *DotGit) ObjectPacks() ([]plumbing.Hash, error) {
 		return nil, err
 	}
 
-	return list, nil
+	// The cached listing is shared: cap it so that a caller's append allocates.
+	return list[:len(list):len(list)], nil
 }
 
 func (d *DotGit) objectPacks() ([]plumbing.Hash, error) {
